@@ -94,12 +94,14 @@ func (ds *AnySource) RunDoneActivate() {
 	defer ds.sourceStateLock.Unlock()
 	ds.sourceState = Active
 	ds.runDone.Add(1)
+	verifPoint("run.activate")
 }
 
 // RunDoneDeactivate calls Done on ds.runDone, this should only be called (by defer) in Start
 func (ds *AnySource) RunDoneDeactivate() {
 	ds.sourceStateLock.Lock()
 	ds.sourceState = Inactive
+	verifPoint("run.deactivate")
 	ds.runDone.Done()
 	ds.sourceStateLock.Unlock()
 }
@@ -138,30 +140,41 @@ func (ds *AnySource) getNextBlock() chan *dataBlock {
 //
 // When done with the loop, close all channels to DataStreamProcessor objects.
 func Start(ds DataSource, queuedRequests chan func(), Npresamp int, Nsamples int) error {
+	verifPoint("start.enter")
 	if err := ds.SetStateStarting(); err != nil {
 		return err
 	}
+	verifPoint("start.beforeSample")
 	if err := ds.Sample(); err != nil {
+		verifPoint("start.sampleFailed")
 		ds.SetStateInactive()
 		return err
 	}
 
+	verifPoint("start.sampled")
 	if err := ds.PrepareChannels(); err != nil {
+		verifPoint("start.channelsFailed")
 		ds.SetStateInactive()
 		return err
 	}
 
+	verifPoint("start.channelsPrepared")
 	if err := ds.PrepareRun(Npresamp, Nsamples); err != nil {
+		verifPoint("start.prepareFailed")
 		ds.SetStateInactive()
 		return err
 	}
 
+	verifPoint("start.runPrepared")
 	ds.RunDoneActivate() // Call RunDoneDeactivate inside CoreLoop when it returns.
+	verifPoint("start.activated")
 	if err := ds.StartRun(); err != nil {
+		verifPoint("start.startRunFailed")
 		ds.RunDoneDeactivate()
 		return err
 	}
 
+	verifPoint("start.runStarted")
 	go CoreLoop(ds, queuedRequests)
 	return nil
 }
@@ -170,9 +183,11 @@ func Start(ds DataSource, queuedRequests chan func(), Npresamp int, Nsamples int
 // This will be a long-running goroutine, as long as a source is active.
 func CoreLoop(ds DataSource, queuedRequests chan func()) {
 	defer ds.RunDoneDeactivate()
+	verifPoint("loop.start")
 	nextBlock := ds.getNextBlock()
 
 	for {
+		verifPoint("loop.select")
 		// Use select to interleave 2 activities that should NOT be done concurrently:
 		// 1. Handle RPC requests to change data processing parameters (e.g. trigger).
 		// 2. Handle new data and process it.
@@ -180,24 +195,31 @@ func CoreLoop(ds DataSource, queuedRequests chan func()) {
 
 		// Handle RPC requests
 		case request := <-queuedRequests:
+			verifPoint("loop.gotRequest")
 			request()
+			verifPoint("loop.requestDone")
 
 		// Handle data, or recognize the end of data
 		case block, ok := <-nextBlock:
 			if !ok {
 				// nextBlock was closed in the data production loop when abortSelf was closed
+				verifPoint("loop.gotClosed")
 				log.Println("nextBlock channel was closed; stopping the source normally")
 				return
 
 			} else if block.err != nil {
 				// errors in block indicate a problem with source: need to close down
+				verifPoint("loop.gotError")
 				log.Printf("nextBlock received Error; stopping source: %s\n", block.err.Error())
 				return
 			}
+			verifPoint("loop.gotBlock")
 			if err := ds.ProcessSegments(block); err != nil {
+				verifPoint("loop.processFailed")
 				log.Printf("AnySource.ProcessSegments returns Error; stopping source: %s\n", err.Error())
 				panic("Panic to stop source when processSegments errors. This seems to keep the Lancero working better than stopping the source")
 			}
+			verifPoint("loop.processed")
 			// In some sources, ds.getNextBlock has to be called again to initiate the next
 			// data acquisition step (Lancero, specifically).
 			nextBlock = ds.getNextBlock()
@@ -207,13 +229,16 @@ func CoreLoop(ds DataSource, queuedRequests chan func()) {
 
 // Stop tells the data supply to deactivate.
 func (ds *AnySource) Stop() error {
+	verifPoint("stop.enter")
 	ds.sourceStateLock.Lock()
 	switch ds.sourceState {
 	case Inactive:
+		verifPoint("stop.notActive")
 		ds.sourceStateLock.Unlock()
 		return fmt.Errorf("AnySource not active, cannot stop")
 
 	case Starting:
+		verifPoint("stop.onStarting")
 		panic("Called Stop on a Starting source; how to handle this??")
 
 	case Active:
@@ -222,19 +247,24 @@ func (ds *AnySource) Stop() error {
 
 	case Stopping:
 		// Ignore Stop if source is already Stopping.
+		verifPoint("stop.alreadyStopping")
 		ds.sourceStateLock.Unlock()
 		return nil
 	}
 	ds.sourceState = Stopping
+	verifPoint("stop.switched")
 	closeIfOpen(ds.abortSelf)
 	ds.sourceStateLock.Unlock()
 
+	verifPoint("stop.beforeWait")
 	ds.RunDoneWait()
+	verifPoint("stop.waited")
 	ds.groupKeysSorted = make([]GroupIndex, 0)
 	if ds.writingState.Active { // if writing, Stop writing
 		wcc := WriteControlConfig{Request: "STOP"}
 		ds.WriteControl(&wcc)
 	}
+	verifPoint("stop.cleaned")
 	return nil
 }
 
@@ -410,6 +440,7 @@ func (ds *AnySource) archiveNewDataBlock(block *dataBlock) {
 // in parallel. Returns when all segments have been processed.
 // It's more synchronous than our original plan of each dsp launching its own goroutine.
 func (ds *AnySource) ProcessSegments(block *dataBlock) error {
+	verifPoint("eff.ProcessSegments")
 	nchan := len(block.segments)
 	nproc := len(ds.processors)
 	if nproc != nchan {
@@ -511,6 +542,7 @@ func (ds *AnySource) ProcessSegments(block *dataBlock) error {
 // SetExperimentStateLabel writes to a file with name like XXX_experiment_state.txt
 // the file is created upon the first call to this function for a given file writing
 func (ds *AnySource) SetExperimentStateLabel(timestamp time.Time, stateLabel string) error {
+	verifPoint("eff.SetExperimentStateLabel")
 	return ds.writingState.SetExperimentStateLabel(timestamp, stateLabel)
 }
 
@@ -648,6 +680,7 @@ func makeDirectory(basepath string) (string, error) {
 // For (WriteLJH22 == true) and/or (WriteLJH3 == true), all channels will have writing enabled
 // For (WriteOFF == true), only chanels with projectors set will have writing enabled
 func (ds *AnySource) WriteControl(config *WriteControlConfig) error {
+	verifPoint("eff.WriteControl")
 	requestStr := strings.ToUpper(config.Request)
 	switch {
 	case strings.HasPrefix(requestStr, "PAUSE"):
@@ -792,6 +825,7 @@ func (ds *AnySource) WritingIsActive() bool {
 
 // ConfigureProjectorsBases calls SetProjectorsBasis on ds.processors[channelIndex]
 func (ds *AnySource) ConfigureProjectorsBases(channelIndex int, projectors *mat.Dense, basis *mat.Dense, modelDescription string) error {
+	verifPoint("eff.ConfigureProjectorsBases")
 	if channelIndex >= len(ds.processors) || channelIndex < 0 {
 		return fmt.Errorf("channelIndex out of range, channelIndex=%v, len(ds.processors)=%v", channelIndex, len(ds.processors))
 	}
@@ -841,8 +875,10 @@ func (ds *AnySource) SetStateStarting() error {
 	defer ds.sourceStateLock.Unlock()
 	if ds.sourceState == Inactive {
 		ds.sourceState = Starting
+		verifPoint("state.starting")
 		return nil
 	}
+	verifPoint("state.startRejected")
 	return fmt.Errorf("cannot Start() a source that's %v, not Inactive", ds.sourceState)
 }
 
@@ -851,6 +887,7 @@ func (ds *AnySource) SetStateInactive() error {
 	ds.sourceStateLock.Lock()
 	defer ds.sourceStateLock.Unlock()
 	ds.sourceState = Inactive
+	verifPoint("state.inactive")
 	return nil
 }
 
@@ -1005,6 +1042,7 @@ func (ds *AnySource) ComputeFullTriggerState() []FullTriggerState {
 
 // ChangeTriggerState changes the trigger state for 1 or more channels.
 func (ds *AnySource) ChangeTriggerState(state *FullTriggerState) error {
+	verifPoint("eff.ChangeTriggerState")
 	if state.ChannelIndices == nil || len(state.ChannelIndices) < 1 {
 		return fmt.Errorf("got ConfigureTriggers with no valid ChannelIndices")
 	}
@@ -1029,6 +1067,7 @@ func (ds *AnySource) ChannelNames() []string {
 
 // ConfigurePulseLengths set the pulse record length and pre-samples.
 func (ds *AnySource) ConfigurePulseLengths(nsamp, npre int) error {
+	verifPoint("eff.ConfigurePulseLengths")
 	if npre < 3 || // edgeTrigger looks at npre-3
 		nsamp < 1 || // require at least 1 sample
 		nsamp < npre+1 { // require at least one post trigger sample
@@ -1050,6 +1089,7 @@ func (ds *AnySource) ConfigurePulseLengths(nsamp, npre int) error {
 // SetCoupling sets the FB/Err coupling status.
 // SetCoupling(NoCoupling) is allowed for generic data sources, but other values are not.
 func (ds *AnySource) SetCoupling(status CouplingStatus) error {
+	verifPoint("eff.SetCoupling")
 	if status == NoCoupling {
 		return nil
 	}
@@ -1059,6 +1099,7 @@ func (ds *AnySource) SetCoupling(status CouplingStatus) error {
 // ChangeGroupTrigger either adds or deletes the connections in `gts` (add when `turnon` is true,
 // otherwise delete).
 func (ds *AnySource) ChangeGroupTrigger(turnon bool, gts *GroupTriggerState) error {
+	verifPoint("eff.ChangeGroupTrigger")
 	// changer is either the Add or Delete function, depending on turnon
 	changer := ds.broker.DeleteConnection
 	if turnon {
@@ -1074,6 +1115,7 @@ func (ds *AnySource) ChangeGroupTrigger(turnon bool, gts *GroupTriggerState) err
 
 // StopTriggerCoupling turns off all trigger coupling, including all group triggers and FB/Err coupling.
 func (ds *AnySource) StopTriggerCoupling() error {
+	verifPoint("eff.StopTriggerCoupling")
 	return ds.broker.StopTriggerCoupling()
 }
 
@@ -1105,6 +1147,7 @@ func (ds *AnySource) writeNPZData(file *os.File) error {
 // in the form of a `storeableDataBlock` struct, then when it's done, writes that info
 // to the numpy-style npz file `file`. Finally, it closes that file and renames it to `finalName`.
 func (ds *AnySource) ArchiveDataBlock(N int, file *os.File, finalName string) error {
+	verifPoint("eff.ArchiveDataBlock")
 	if ds.archiveBlock.active {
 		return fmt.Errorf("cannot start archive block, because one is already being acquired")
 	}
